@@ -16,6 +16,9 @@ var bigOne = big.NewInt(1)
 func (eng *Engine) buildFuncVC(fn *ssa.Function, con *Contract, disabled map[string]bool, noAuto bool) (vc *VC) {
 	vc = newVC(eng, fn, con)
 	vc.noAuto = noAuto
+	if con != nil && con.Opts["realmul"] == "on" {
+		vc.realMul = true // genuine non-linear multiplication in this function's VC
+	}
 	if disabled != nil {
 		vc.disabledAuto = disabled
 	}
@@ -79,6 +82,13 @@ func (eng *Engine) buildFuncVC(fn *ssa.Function, con *Contract, disabled map[str
 		Pos: fn.Pos(), Desc: "preconditions and type invariants are satisfiable"})
 	st := entry.clone()
 	fr.run(st)
+	if con != nil {
+		for k := range con.Asserts {
+			if !vc.assertHit[k] {
+				vc.specErrs = append(vc.specErrs, fmt.Sprintf("%s:%d: binding: call site %s of an assert clause not found (code restructured?)", con.File, con.Line, k))
+			}
+		}
+	}
 	// returns
 	var retGuards []*Term
 	for _, r := range fr.rets {
